@@ -58,6 +58,9 @@ func c06Expect(b []byte) (formats.Format, string) {
 	}
 	if err == nil {
 		if v.Kind != jsonx.Object {
+			if strings.Contains(string(b), "SPDXVersion:") {
+				return "", "" // a JSON string/array that also reads as a tag-value declaration line: undecided
+			}
 			return "", "error" // no top-level declaration possible
 		}
 		count := func(k string) int {
